@@ -51,8 +51,9 @@ def le (a b : Meta) : Prop := less b a = false
 
 theorem le_iff (a b : Meta) : le a b ↔
     (a.sources.length > b.sources.length ∨ (a.sources.length = b.sources.length ∧
-      (a.level > b.level ∨ (a.level = b.level ∧ a.id ≤ b.id)))) := by
-  unfold le less
+      (a.level > b.level ∨ (a.level = b.level ∧
+        (a.utime < b.utime ∨ (a.utime = b.utime ∧ a.uent ≤ b.uent)))))) := by
+  unfold le less ulidLess
   split
   · rename_i h
     split
@@ -60,7 +61,7 @@ theorem le_iff (a b : Meta) : le a b ↔
       simp only [decide_eq_false_iff_not]
       omega
     · rename_i h2
-      simp only [decide_eq_false_iff_not, Nat.not_lt]
+      simp only [decide_eq_false_iff_not]
       omega
   · rename_i h
     simp only [decide_eq_false_iff_not]
@@ -68,7 +69,7 @@ theorem le_iff (a b : Meta) : le a b ↔
 
 theorem le_of_less {a b : Meta} (h : less a b = true) : le a b := by
   rw [le_iff]
-  unfold less at h
+  unfold less ulidLess at h
   split at h
   · split at h
     · simp only [decide_eq_true_eq] at h; omega
@@ -103,9 +104,16 @@ theorem sorted_sortMetas : ∀ l : List Meta, (sortMetas l).Pairwise le
     simp only [sortMetas, List.foldr_cons] at ih ⊢
     exact sorted_insertMeta a _ ih
 
-/-- On blocks with distinct ULIDs the sorted order is unique: any two listings of the same
-    blocks sort to the same list (so `sort.Slice` not being stable cannot matter). -/
-theorem sort_unique {l l' : List Meta} (p : l.Perm l') (h : DistinctIds l) : sortMetas l = sortMetas l' := by
+/-- distinct ULIDs differ in time or in entropy: the protocol number of a ULID is determined by
+    its (time, entropy) pair -/
+def KeyInj (l : List Meta) : Prop :=
+  ∀ a ∈ l, ∀ b ∈ l, a.utime = b.utime → a.uent = b.uent → a.id = b.id
+
+/-- On blocks with distinct ULIDs — ordered by (time, entropy), as `ULID.Compare` does — the
+    comparator is a total order, so the sorted order is unique: any two listings of the same blocks
+    sort to the same list (`sort.Slice` not being stable, and Go's map order, cannot matter). -/
+theorem sort_unique {l l' : List Meta} (p : l.Perm l') (h : DistinctIds l) (hk : KeyInj l) :
+    sortMetas l = sortMetas l' := by
   apply List.Perm.eq_of_pairwise (le := le) _ (sorted_sortMetas l) (sorted_sortMetas l')
     ((sortMetas_perm l).trans (p.trans (sortMetas_perm l').symm))
   intro a b ha hb h1 h2
@@ -113,7 +121,7 @@ theorem sort_unique {l l' : List Meta} (p : l.Perm l') (h : DistinctIds l) : sor
   have hb' : b ∈ l := p.mem_iff.mpr (mem_sortMetas.mp hb)
   apply id_inj h ha' hb'
   rw [le_iff] at h1 h2
-  omega
+  exact hk a ha' b hb' (by omega) (by omega)
 
 -- ---------------------------------------------------------------- childLoop
 
